@@ -30,6 +30,7 @@ ASSUMPTIONS = [
     'channel and template *counts* per probe are concrete (non-uniform tuples included)',
     'load_model at the end of merge() replaced by a no-op; raw open(r+b) writes are modelled at element '
     'granularity on the virtual npy file',
+    'forms added after seeding rounds: an optional matrix absent in one probe (nothing may be written for it), a non-final probe whose last template never fired, unequal template dtypes',
 ]
 STUBS = ['tqdm', 'load_model inside merge()', 'scipy.linalg.block_diag (reference implementation on symbolic '
          'matrices)', 'np.save/np.load/open (virtual file system)']
